@@ -36,6 +36,11 @@ def gen_cases(tier, rng):
     for _ in range(60 if tier == "quick" else 600):
         n = rng.choice([0, 3, 10, 11, 12, 15, 16, 40])
         yield Case("c11.read %s" % hex_tok(bytes(rng.randrange(256) if rng.random() < 0.5 else 0 for _ in range(n))), cls="read-random")
+    # re-stamping (Tag.ModTagTimestamp): sequences of timestamps on both sides of 2^24
+    for ts in TSS:
+        for k in range(3):
+            seq = [rng.choice(TSS + [rng.randrange(1 << 32), rng.randrange(1 << 24)]) for _ in range(rng.randrange(1, 5))]
+            yield Case("c11.modts %d %d %s %s" % (rng.choice([8, 9, 18]), ts, payload_tok(rng, rng.choice([0, 1, 5, 300])), ",".join(str(x) for x in seq)), cls="modts")
     # ws header: every flag combination x length forms
     for plen in [0, 1, 125, 126, 127, 65535, 65536, 65537, 1 << 31, (1 << 32) - 1, 1 << 32, (1 << 63) - 1, 1 << 63, (1 << 64) - 1]:
         for flags in range(16):
@@ -179,6 +184,18 @@ def oracle(c, out):
                     bt, bs, bts, braw = s.split(":")
                     if (num(bt), num(bs), num(bts)) != (t, len(p), ts) or tok_bytes(braw) != ref_pack(t, ts, p):
                         return (False, "lal's FLV reader returns a different tag")
+            return (True, "")
+        if op == "c11.modts":
+            t, ts, p = num(f[1]), num(f[2]), tok_bytes(f[3])
+            seq = [ts] + [int(x) for x in f[4].split(",")]
+            got = out.split(",")
+            if len(got) != len(seq):
+                return (False, "re-stamp: %d tags reported for %d timestamps" % (len(got), len(seq)))
+            for want_ts, g in zip(seq, got):
+                gt, gs, gts, graw = g.split(":")
+                parsed = ref_parse_tags(tok_bytes(graw))
+                if parsed != [(t, want_ts, p)] or num(gts) != want_ts:
+                    return (False, "after re-stamping to %d the tag bytes carry %r and the header says %d" % (want_ts, parsed[0][1] if parsed else None, num(gts)))
             return (True, "")
         if op == "c11.wshdr":
             fin, r1, r2, r3, opc, plen, masked, key = [num(x) for x in f[1:]]
